@@ -327,6 +327,9 @@ impl World {
     /// the projection compared with the specification's `disk`
     fn observe(&self) -> Value {
         let entry = |p: &Path, gz: bool| -> Value {
+            if fs::symlink_metadata(p).map(|m| m.file_type().is_symlink()).unwrap_or(false) {
+                return json!({"k": "full", "d": []}); // the obstacle that cannot be written (never read through it)
+            }
             if p.is_dir() {
                 return json!({"k": "dir", "d": []});
             }
@@ -423,6 +426,10 @@ pub fn replay_case(case: &Value, mat: Mat) -> Option<Value> {
         if case["ops"].as_array().unwrap().iter().any(|o| matches!(o["op"].as_str(), Some("arm") | Some("obstruct")) || matches!(o["res"].as_str(), Some("crash") | Some("encfail"))) {
             return None;
         }
+    }
+    // instances whose final rotation step compresses speak about .gz patterns only
+    if p["gz"].as_bool().unwrap_or(false) && !mat.gz {
+        return None;
     }
     let scratch = Scratch::new("roll");
     let other = if mat.cross_mount {
@@ -568,11 +575,21 @@ pub fn replay_case(case: &Value, mat: Mat) -> Option<Value> {
             }
             "obstruct" => {
                 let d = world.arch(op["i"].as_i64().unwrap());
-                fs::create_dir_all(&d).unwrap();
-                fs::write(d.join("keep"), b"obstacle").unwrap();
+                if op["kind"] == "full" {
+                    fs::create_dir_all(d.parent().unwrap()).unwrap();
+                    std::os::unix::fs::symlink("/dev/full", &d).unwrap();
+                } else {
+                    fs::create_dir_all(&d).unwrap();
+                    fs::write(d.join("keep"), b"obstacle").unwrap();
+                }
             }
             "unobstruct" => {
-                let _ = fs::remove_dir_all(world.arch(op["i"].as_i64().unwrap()));
+                let d = world.arch(op["i"].as_i64().unwrap());
+                if fs::symlink_metadata(&d).map(|m| m.file_type().is_symlink()).unwrap_or(false) {
+                    let _ = fs::remove_file(&d);
+                } else {
+                    let _ = fs::remove_dir_all(&d);
+                }
             }
             "stop" => {
                 drop(appender.take());
